@@ -26,5 +26,10 @@ for pid in sorted(checks["properties"]):
         "level_note": m["level_note"],
         "technique": m["technique"],
     })
+claimed = set(checks["properties"]); listed = set(x["property_id"] for x in out["not_applicable"])
+for l in open(os.path.join(V, "properties.jsonl")):
+    pid = json.loads(l)["id"]
+    if pid not in claimed and pid not in listed:
+        out["not_applicable"].append({"property_id": pid, "reason": "not claimed at this commit: the contract unit planned for it in DESIGN.md section 4 is not built yet"})
 json.dump(out, open(os.path.join(V, 'MANIFEST.json'), 'w'), indent=1)
 print('MANIFEST.json written:', len(out['checks']), 'checks,', len(out['not_applicable']), 'not applicable')
